@@ -4612,6 +4612,7 @@ class ResponseFuture(object):
                                                             decoder=self._protocol_handler.decode_message,
                                                             result_metadata=result_meta)
             self.attempted_hosts.append(host)
+            self._req_id = request_id
             return request_id
         except NoConnectionsAvailable as exc:
             log.debug("All connections for host %s are at capacity, moving to the next host", host)
